@@ -84,3 +84,89 @@ pub(crate) fn order_eligible(mut eligible: Vec<crate::types::PeerInfo>) -> Vec<c
     }
     eligible
 }
+
+/// Wrappers over crate-private items of the `network` module (wire codecs, direct drive of the
+/// active-peer set).
+pub use crate::network::verif as net;
+
+/// Wrappers over the crate-private certificate verifiers. `Ok(())` means "accepted".
+pub mod crypto {
+    use crate::crypto::{CertVerifier, ExpectedCertVerifier};
+    use crate::PeerId;
+    use rustls::client::danger::ServerCertVerifier;
+    use rustls::pki_types::{CertificateDer, ServerName, UnixTime};
+    use rustls::server::danger::ClientCertVerifier;
+    use std::time::Duration;
+
+    fn ders(v: &[Vec<u8>]) -> Vec<CertificateDer<'static>> {
+        v.iter().map(|c| CertificateDer::from(c.clone())).collect()
+    }
+
+    pub fn peer_id_from_certificate(der: &[u8]) -> Result<PeerId, String> {
+        crate::crypto::peer_id_from_certificate(&CertificateDer::from(der.to_vec()))
+            .map_err(|e| e.to_string())
+    }
+
+    pub fn verify_client_cert(
+        server_names: &[String],
+        end_entity: &[u8],
+        intermediates: &[Vec<u8>],
+        now_unix_secs: u64,
+    ) -> Result<(), String> {
+        let verifier = CertVerifier {
+            server_names: server_names.to_vec(),
+        };
+        verifier
+            .verify_client_cert(
+                &CertificateDer::from(end_entity.to_vec()),
+                &ders(intermediates),
+                UnixTime::since_unix_epoch(Duration::from_secs(now_unix_secs)),
+            )
+            .map(|_| ())
+            .map_err(|e| e.to_string())
+    }
+
+    pub fn verify_server_cert(
+        server_names: &[String],
+        expected_peer_id: Option<PeerId>,
+        end_entity: &[u8],
+        intermediates: &[Vec<u8>],
+        dialed_name: &str,
+        now_unix_secs: u64,
+    ) -> Result<(), String> {
+        let verifier = CertVerifier {
+            server_names: server_names.to_vec(),
+        };
+        let name = ServerName::try_from(dialed_name.to_owned()).map_err(|e| e.to_string())?;
+        let end_entity = CertificateDer::from(end_entity.to_vec());
+        let intermediates = ders(intermediates);
+        let now = UnixTime::since_unix_epoch(Duration::from_secs(now_unix_secs));
+        match expected_peer_id {
+            Some(peer_id) => ExpectedCertVerifier(verifier, peer_id).verify_server_cert(
+                &end_entity,
+                &intermediates,
+                &name,
+                &[],
+                now,
+            ),
+            None => verifier.verify_server_cert(&end_entity, &intermediates, &name, &[], now),
+        }
+        .map(|_| ())
+        .map_err(|e| e.to_string())
+    }
+
+    /// The signature schemes the handshake-signature check accepts, for all three verifiers.
+    pub fn supported_verify_schemes() -> Vec<Vec<rustls::SignatureScheme>> {
+        let verifier = CertVerifier {
+            server_names: vec![],
+        };
+        vec![
+            ClientCertVerifier::supported_verify_schemes(&verifier),
+            ServerCertVerifier::supported_verify_schemes(&verifier),
+            ServerCertVerifier::supported_verify_schemes(&ExpectedCertVerifier(
+                verifier.clone(),
+                PeerId([0; 32]),
+            )),
+        ]
+    }
+}
